@@ -12,6 +12,7 @@ func (c *Ctx) Run(job, tier string) {
 		c.RunIso()
 		c.RunCfgSeq()
 		c.RunReadd()
+		c.RunUntouched()
 	case "race":
 		c.RunRace(tier)
 	default:
@@ -44,6 +45,8 @@ func (c *Ctx) Replay(job, wit string, capS int) error {
 			return nil
 		}
 		c.checkIso(base, sc.Iso.Mut, sc.Iso.Point)
+	case sc.Mode == "untouched":
+		c.checkUntouched(sc.Untouched)
 	case sc.Mode == "readd":
 		c.checkReadd(sc.Readd)
 	case sc.Mode == "cfgseq":
